@@ -12,7 +12,8 @@ What lives in the runtime is a parameter:
 * the outcome of `os.makedirs` / `remove` (success, or the exception raised) and
   the answer of `os.path.isdir` are inputs of `ensureTree` / `deleteIfExists`.
 The errno constants are extracted from the running tree (Generated/C20.lean).
-`write_to_tempfile` (83-109) is mkstemp + os.write: OS behaviour, no model.
+`write_to_tempfile` (83-109): mkstemp uniqueness is OS behaviour; what the code itself
+decides (which calls are made, what is handed to os.write, what escapes) is `writeToTempfile`.
 -/
 import OsloModel.Generated.C20
 namespace Oslo.File
@@ -162,6 +163,31 @@ def removePathOnError (body : Option Exc) (remove : Except Exc Unit) : Except Ra
     match deleteIfExists remove with
     | .ok () => .error (.body b)
     | .error e => .error (.fromRemove e)
+
+/-! ## write_to_tempfile: decision logic over the outcomes of ensure_tree / mkstemp / os.write -/
+
+structure TempOut where
+  result : Except Exc Unit     -- `.ok`: the path mkstemp returned is returned
+  ensureCalled : Bool
+  file : Option Bytes          -- content of the file mkstemp created; `none`: no file created
+  fdClosed : Bool
+  deriving Repr
+
+/-- write_to_tempfile(content, path, suffix, prefix) (lines 101-109).  `content` is the byte
+    string the content object exposes through the buffer protocol: the object is handed to
+    `os.write` untouched, whatever its type.  `pathTruthy`: `if path:`; `ensure`, `mkstemp`,
+    `write`: what ensure_tree(path), tempfile.mkstemp(...) and os.write(fd, content) do. -/
+def writeToTempfile (content : Bytes) (pathTruthy : Bool)
+    (ensure mkstemp write : Except Exc Unit) : TempOut :=
+  match (if pathTruthy then ensure else .ok ()) with               -- lines 101-102
+  | .error e => ⟨.error e, pathTruthy, none, false⟩
+  | .ok () =>
+    match mkstemp with                                              -- line 104
+    | .error e => ⟨.error e, pathTruthy, none, false⟩
+    | .ok () =>
+      match write with                                              -- lines 105-108
+      | .error e => ⟨.error e, pathTruthy, some [], true⟩           -- finally: os.close(fd)
+      | .ok () => ⟨.ok (), pathTruthy, some content, true⟩          -- line 109
 
 /-! ### a one-path file system, for the "already done" clauses (assumed OS behaviour,
     exercised against the real file system by the correspondence) -/
